@@ -243,7 +243,7 @@ example :
     run ⟨fun _ => .ok 2⟩ (magic ++ [0x7b, 0x7d, 0] ++ [0x42, 2, 0, 0, 0x42, 3, 0, 0, 0x41, 0, 2, 1, 1, 0x40])
         (List.replicate 33 1) =
       ⟨[.tickStart 0, .playerNew 2 0 0, .playerNew 3 0 0, .tickEnd 0, .tickStart 1,
-        .playerChange 2 1 1 0 0, .tickEnd 1], .finished, 4⟩ := by decide +kernel
+        .playerChange 2 1 1 0 0, .tickEnd 1], .finished, ⟨4, [(2, (1, 1)), (3, (0, 0))], []⟩⟩ := by decide +kernel
 example :
     run ⟨fun _ => .ok 2⟩ (magic ++ [0x7b, 0x7d, 0] ++ [0x42, 2, 0, 0, 0x42, 3, 0, 0, 0x41, 0, 2, 1, 1, 0x40])
         [0, 5, 0, 0, 2, 17, 1] =
@@ -258,12 +258,12 @@ example :
     runCb ⟨fun _ => .ok 2⟩
       { rem := magic ++ [0x7b, 0x7d, 0] ++ [0x42, 2, 0, 0, 0x42, 3, 0, 0, 0x40],
         ds := [.size 19, .size 4, .size 2, .fail] } =
-      ⟨[.tickStart 0, .playerNew 2 0 0], .cbErr, 3⟩ := by decide +kernel
+      ⟨[.tickStart 0, .playerNew 2 0 0], .cbErr, ⟨3, [(2, (0, 0))], []⟩⟩ := by decide +kernel
 -- the file reader with an interruption and short reads
 example :
     runFile ⟨fun _ => .ok 2⟩ (magic ++ [0x7b, 0x7d, 0] ++ [0x42, 2, 0, 0, 0x40])
       [.data 1 (by decide), .eintr, .data 30 (by decide), .eintr, .data 100 (by decide)] =
-      ⟨[.tickStart 0, .playerNew 2 0 0, .tickEnd 0], .finished, 3⟩ := by decide +kernel
+      ⟨[.tickStart 0, .playerNew 2 0 0, .tickEnd 0], .finished, ⟨3, [(2, (0, 0))], []⟩⟩ := by decide +kernel
 
 /-! ### Totality -/
 
@@ -340,7 +340,7 @@ reader reads the same file to its end. -/
 theorem d18_legacy_witness (slots : Nat) (h : slots ≤ 131072) :
     Legacy.reference slots ⟨fun _ => .ok 2⟩ (magic ++ [0x7b, 0x7d, 0] ++ [0x42, 0x80, 0x80, 0x10, 0, 0, 0x40]) = none ∧
     run ⟨fun _ => .ok 2⟩ (magic ++ [0x7b, 0x7d, 0] ++ [0x42, 0x80, 0x80, 0x10, 0, 0, 0x40]) [] =
-      ⟨[.tickStart 0, .playerNew 131072 0 0, .tickEnd 0], .finished, 131073⟩ := by
+      ⟨[.tickStart 0, .playerNew 131072 0 0, .tickEnd 0], .finished, ⟨131073, [(131072, (0, 0))], []⟩⟩ := by
   refine ⟨?_, by decide +kernel⟩
   have hh : pHeader (fun _ => .ok 2) (magic ++ [0x7b, 0x7d, 0] ++ [0x42, 0x80, 0x80, 0x10, 0, 0, 0x40]) =
       .ok (.version 2) [0x42, 0x80, 0x80, 0x10, 0, 0, 0x40] := by decide +kernel
@@ -421,6 +421,6 @@ example :
 example :
     runCb ⟨fun _ => .ok 2⟩
       (Cb.ofChunks [magic, [], [0x7b, 0x7d], [0, 0x42], [2, 0], [], [0, 0x40]]) =
-      ⟨[.tickStart 0, .playerNew 2 0 0, .tickEnd 0], .finished, 3⟩ := by decide +kernel
+      ⟨[.tickStart 0, .playerNew 2 0 0, .tickEnd 0], .finished, ⟨3, [(2, (0, 0))], []⟩⟩ := by decide +kernel
 
 end Tw.Props.C17
